@@ -50,7 +50,7 @@ EXPECTED_PROBES = ["partial_last_batch", "batch_larger_than_set", "grid_invert_b
                    "workload_A", "workload_B", "workload_C", "ratio_out_of_range", "train_empty",
                    "negative_control_differs", "val_split_in_loop", "reset_after_continue",
                    "seed_given_as_generator", "n_beyond_int16", "n_beyond_uint16", "fifth_epoch_or_later",
-                   "seed_ge_2_32"]
+                   "seed_ge_2_32", "soft_constraints_on", "tapped_after_warmup"]
 
 _ctx = {}
 
@@ -102,6 +102,15 @@ def _opt(kind, lr=1e-3):
 RATIOS = [0.0, 0.0, 0.004, 0.1, 0.25, 0.3, 0.5, 0.4999, 0.5001, 0.75, 0.9, 0.99, 0.28, 1.0, -0.2, 1.7]
 
 
+def _gen_cons(r):
+    w = lambda: r.pick([1e-3, 0.1, 5.0])  # noqa: E731
+    return r.pick([{}, {}, {"object": {"tv_weight_xy": w()}}, {"probe": {"tv_weight": w()}},
+                   {"object": {"surface_zero_weight": w()}},
+                   {"object": {"tv_weight_xy": w(), "tv_weight_z": w()}},
+                   {"object": {"tv_weight_xy": w()}, "probe": {"tv_weight": w()}},
+                   {"dataset": {"descan_tv_weight": w()}}])
+
+
 def gen(rng: Rng, tier, i):
     w = rng.weighted([("A", 5), ("B", 2), ("C", 3)])
     if w == "A":
@@ -139,7 +148,10 @@ def gen(rng: Rng, tier, i):
                 "split_seed": rng.randrange(10 ** 6),
                 "keys": rng.pick([["object", "probe"], ["object", "probe"], ["object"], ["probe"],
                                   ["object", "probe", "dataset"]]),
-                "tv": rng.pick([0.0, 0.0, 1e-3])}
+                "tv": rng.pick([0.0, 0.0, 1e-3]),
+                # soft constraints (added to every batch loss; must not break batch invariance) and a
+                # warm-up of real iterations so that object/probe are no longer the uniform initial guess
+                "cons": _gen_cons(rng.fork("cons")), "warm": rng.fork("warm").pick([0, 0, 1, 3])}
     return {"w": "C", "data_seed": rng.randrange(1000), "scan": rng.pick([[6, 6], [5, 7]]),
             "seed": rng.fork("seedval").pick([rng.randrange(10 ** 6)] * 5 + [
                 0, 1, 2 ** 32, 2 ** 32 + 7, 2 ** 53 + 1, 2 ** 63 - 1]),
@@ -285,9 +297,20 @@ def _run_B(plan, res, viol):
     pt = _build(plan, ratio=plan["ratio"], mode=plan["mode"], obj_type=plan["obj_type"],
                 n_modes=plan["modes"], num_slices=plan["slices"])
     keys = plan.get("keys", ["object", "probe"])
-    cons = {"object": {"tv_weight_xy": plan["tv"]}} if plan.get("tv") else {}
+    cons = copy.deepcopy(plan.get("cons") or {})
+    if plan.get("tv") and not cons:
+        cons = {"object": {"tv_weight_xy": plan["tv"]}}
+    if cons:
+        bump(res["probes"], "soft_constraints_on")
     pt.reconstruct(num_iters=0, reset=True, batch_size=None, constraints=cons,
                    optimizer_params={k_: {"type": "sgd", "lr": 1e-3} for k_ in keys})
+    if plan.get("warm"):
+        # real iterations (taps off: the optimisers step) with a larger step, so that the object is no
+        # longer uniform and every regulariser has a non-zero value and gradient when tapped
+        bump(res["probes"], "tapped_after_warmup")
+        pt.rng = simsched.SimGenerator(plan["split_seed"], ["random"] + plan["kinds"])
+        pt.reconstruct(num_iters=plan["warm"], batch_size=None, loss_type=plan["loss"],
+                       optimizer_params={k_: {"type": "sgd", "lr": 5e-2} for k_ in keys})
     ref = None
     sizes = {}
     # the training-set size is only known once a batcher exists: probe it with a full-batch call
@@ -350,10 +373,10 @@ def _run_B(plan, res, viol):
         dr = abs(rec["iter_loss"] - full["iter_loss"]) / (abs(full["iter_loss"]) + 1e-30)
         if dr > 1e-4:
             viol("reported_loss_not_batch_invariant", f"b={b}: reported iteration loss "
-                 f"{rec['iter_loss']:.8g} vs full-batch {full['iter_loss']:.8g} (tv={plan.get('tv')})",
+                 f"{rec['iter_loss']:.8g} vs full-batch {full['iter_loss']:.8g} (constraints={cons})",
                  "reported_loss_not_batch_invariant")
         di = abs(rec["iter_loss"] - rec["loss"]) / (abs(rec["loss"]) + 1e-30)
-        if di > 1e-5 and not plan.get("tv"):
+        if di > 1e-5 and not cons:
             viol("reported_loss_not_mean", f"b={b}: reported iteration loss {rec['iter_loss']:.8g} "
                  f"vs mean of batch losses {rec['loss']:.8g}", "reported_loss_not_mean")
         res["sched"].append(f"B:{plan['kinds'][0]}:{T}:{b}:{plan['mode']}")
